@@ -1379,7 +1379,7 @@ fn layout_scan_mirror(case: &str, c: &Case, exp: &[Exp]) -> Result<(), String> {
     let walk_fields = walk_fields_of(case).ok_or("case line too short")?;
     let req = format!("chain layout scan {base} {s0} {tail} {} {}", if frames.is_empty() { "-".to_string() } else { frames.join(",") }, walk_fields);
     let want = format!(
-        "hyp=1 sp={sp} stack:{} exp:{}",
+        "hyp=1 junk=1 sp={sp} stack:{} exp:{}",
         hex(bytes),
         exp.iter().map(|e| format!("{},{},{}", e.ret, e.sp, e.fp.map(|x| x.to_string()).unwrap_or("-".into()))).collect::<Vec<_>>().join("|")
     );
